@@ -59,6 +59,25 @@ pub fn special_fe(sel: u64, seed: u64) -> [u8; 32] {
         11 => {
             b[31] = 0x80; // top bit only
         }
+        12 | 13 => {
+            // limb-boundary encodings of both representations: 2^k + d for the fe32 radix positions
+            // (26,51,77,102,128,153,179,204,230), fe64's (51,102,153,204) and the decoding carry
+            // boundary 2^254, with d in -20..=20
+            const KS: [u32; 12] = [25, 26, 51, 77, 102, 128, 153, 179, 204, 230, 254, 255];
+            let k = KS[(seed % 12) as usize];
+            let d = ((seed >> 8) % 41) as i64 - 20;
+            // 2^k
+            if k < 256 {
+                b[(k / 8) as usize] = 1 << (k % 8);
+            }
+            // add d (little-endian, with borrow/carry)
+            let mut carry = d;
+            for x in b.iter_mut() {
+                let t = *x as i64 + (carry & 0xff);
+                *x = t as u8;
+                carry = (carry >> 8) + (t >> 8);
+            }
+        }
         _ => b.copy_from_slice(&data(seed | 16, 32)),
     }
     b
@@ -220,10 +239,29 @@ pub const A_GE_DOUBLE_SCALARMULT: u8 = 15;
 pub const A_GE_ADDSUB: u8 = 16; // P + Q, P - Q via cached, doubling
 pub const A_GE_DECODE: u8 = 17; // from_bytes(special / random) -> to_bytes
 pub const A_FE_SQUARE_DOUBLE: u8 = 18;
+pub const A_FE_COMPLEMENT: u8 = 19; // dst = from_bytes(p - value(src1)): an independent representation of -src1
 const A_KINDS: &[&str] = &[
     "fe_load", "fe_add", "fe_sub", "fe_neg", "fe_mul", "fe_square", "fe_square_n", "fe_invert", "fe_pow25523", "fe_observe", "fe_eq", "sc_reduce", "sc_canonical", "sc_muladd", "ge_base",
-    "ge_double_scalarmult", "ge_addsub", "ge_decode", "fe_square_and_double",
+    "ge_double_scalarmult", "ge_addsub", "ge_decode", "fe_square_and_double", "fe_complement",
 ];
+
+/// p - v for a canonical little-endian v < p (harness arithmetic, only used to build inputs)
+fn p_minus(v: &[u8; 32]) -> [u8; 32] {
+    let p = p_plus(0);
+    let mut out = [0u8; 32];
+    let mut borrow = 0i16;
+    for i in 0..32 {
+        let mut t = p[i] as i16 - v[i] as i16 - borrow;
+        if t < 0 {
+            t += 256;
+            borrow = 1;
+        } else {
+            borrow = 0;
+        }
+        out[i] = t as u8;
+    }
+    out
+}
 
 pub struct ArithProg;
 
@@ -290,7 +328,20 @@ impl Scenario for ArithProg {
                     t.ops.push(Op::new(dst, A_FE_POW25523).off(srcs));
                     depth[dst as usize] = 0;
                 }
-                13 | 14 | 15 => t.ops.push(Op::new(s1, A_FE_OBSERVE)),
+                13 | 14 => t.ops.push(Op::new(s1, A_FE_OBSERVE)),
+                15 => {
+                    // x + (p - x): the value is 0 mod p but the limbs come from two independent decodings
+                    if depth[s1 as usize] == 0 && dst != s1 {
+                        t.ops.push(Op::new(dst, A_FE_COMPLEMENT).off(s1));
+                        depth[dst as usize] = 0;
+                        t.ops.push(Op::new(dst, if rng.chance(1, 2) { A_FE_ADD } else { A_FE_SUB }).off(s1 | (dst << 3)));
+                        depth[dst as usize] = 1;
+                        t.ops.push(Op::new(dst, A_FE_OBSERVE));
+                        t.ops.push(Op::new(0, A_FE_EQ).off(dst | (s2 << 3)));
+                    } else {
+                        t.ops.push(Op::new(s1, A_FE_OBSERVE));
+                    }
+                }
                 16 | 17 => t.ops.push(Op::new(0, A_FE_EQ).off(srcs)),
                 18 => {
                     t.ops.push(Op::new(dst, A_FE_LOAD).arg(rng.below(16)).seed(rng.data_seed()));
@@ -398,6 +449,13 @@ impl Scenario for ArithProg {
                         _ => x.pow25523(),
                     })
                     .map(|f| {
+                        regs[dst] = f;
+                        depth[dst] = 0;
+                    })
+                }
+                A_FE_COMPLEMENT => {
+                    let x = regs[s1].clone();
+                    guarded(|| Fe::from_bytes(&p_minus(&x.to_bytes()))).map(|f| {
                         regs[dst] = f;
                         depth[dst] = 0;
                     })
